@@ -22,6 +22,18 @@ CHECKS = {
    "For every reachable deque configuration (capacity <= 20/34, length <= 5/6), heap (<= 5/6 items, every initial slice) and priority queue (4/5 keys) state: every iterator position 0..len, every mutating operation from the property's list and every second mutation (or none), then iteration continued to exhaustion or panic. Oracle: yielded items are a correct prefix of the snapshot (sequence for the deque, multiset for heap/queue), exhaustion only after the whole snapshot, and a mandatory panic on the next call once iteration is under way and an element was added or removed.",
    "A value-only overwrite (Deque.Set, Update of a present key) is not an element change: old or new value or a panic are all accepted. The snapshot may be taken at Iterate() or at the first Next(). Larger containers and more than two mid-iteration mutations are outside the bound.",
    "DESIGN.md §4 C15"),
+ "C01": ("seqx", "explicit-state BFS closure over all reachable B-tree structures at fan-outs 3/4(/5/6) with a sorted-map reference model and full range-query observation per state; exhaustive depth-bounded sequence enumeration from seed trees at the shipped fan-out 16",
+   "Closure of every reachable node structure of the real tree.Map/tree.Set over a key universe (9-13 keys; natural, reversed and coarse orders with distinct-but-equivalent keys; less- and cmp-constructed; operations alternate between two copies of the value) at fan-outs 3 and 4 (thorough: 3-6), reached by replacing only the value of the branchFactor constant through a build overlay. Every state gets Len, First, Last, Get/Contains of all keys, Iterate, and Range/RangeReverse for all 9 bound-kind pairs over all bound positions, compared with a sorted-slice model, plus the write-footprint invariant that underlies the concurrency clause (a Put of a present key changes exactly its value slot; reads change nothing). At the shipped fan-out 16: all operation sequences up to depth 1/2 (thorough 2/3) over the structural focus alphabet from ascending/descending/saw-tooth fills to the capacity boundaries and from trees drained to minimal leaves. The concurrent clause is additionally explored under the controlled scheduler (see C01 concurrency part in the evidence once built).",
+   "Keys are touched only through the comparator and values never inspected (parametricity). branchFactor is treated as a configuration parameter of otherwise unmodified source. The 'free of data races' sub-clause is decided by the exhaustive write-footprint invariant, not by observing the memory model; larger universes are outside the bound.",
+   "DESIGN.md §4 C01"),
+ "C02": ("seqx", "explicit-state BFS closure of the product (tree structure x private cursor state of live iterators x oracle monitor) at small fan-outs; exhaustive scenario enumeration with the iterator parked on every structural boundary at fan-out 16",
+   "Closure of the product of the real tree with one live iterator (thorough: two simultaneous, forward and reverse) over Put/Delete of every key, iterator creation at every reachable tree state (Iterate and all 8 bounded Range/RangeReverse kinds) and Next, at fan-outs 3/4 (thorough 3-6). The iterator's private cursor state (hook) is part of the state key, so the closure is exact. Per-Next oracle: no panic, no spinning (comparator budget), strictly monotone, inside bounds, present now with its current value, sticky exhaustion, and the no-skip rule for keys continuously present since before the previous yield. At fan-out 16: iterator parked on the first/middle/last key of every node of seeded trees, 0-2 items consumed, every focus-alphabet mutation plus a second nearby one, iteration continued to exhaustion.",
+   "Parametricity as for C01. Keys inserted after the previous yield and before the next one may legitimately be skipped (the cursor had already advanced); the oracle allows both outcomes. Universe 5-9 keys per configuration.",
+   "DESIGN.md §4 C02"),
+ "C03": ("seqx", "explicit-state BFS closure at small fan-outs and exhaustive depth-bounded sequence enumeration from seed trees at fan-out 16, structural invariant evaluated on every state through a read-only hook, comparator-call bound through the public API",
+   "Same transitions as C01. After every single operation: every non-root node has minKVs..maxKVs keys, root non-empty unless the tree is empty, all leaves at one depth, keys strictly increasing in order, child count n+1 or 0, parent links correct, Len = number of stored keys = model size, vacated key/value/child slots hold zero values (unreachability of removed data), depth <= 1+floor(log_(minKVs+1)((n+1)/2)), and Get/Contains use at most maxKVs (15 at fan-out 16) comparisons per level. Seeds at fan-out 16 include fills to 15/16/17/127/128/129/136/137/255/256 keys (ascending, descending, saw-tooth, checked after each Put) and trees drained to minimal leaves so that single deletes force steal-left, steal-right, merges, cascades and root collapse; a table of structural events exercised is part of the evidence.",
+   "The read-only hook container/tree/verif_export.go is trusted to copy the private structure faithfully. 'Can be garbage collected' is decided as: not referenced from the live structure (vacated slots zeroed, detached nodes unreachable).",
+   "DESIGN.md §4 C03"),
 }
 props = [json.loads(l) for l in open(os.path.join(ROOT, "properties.jsonl"))]
 hook_commits = subprocess.run(["git","-C","/repo","log","--format=%H %s","--grep=^verif hook"],capture_output=True,text=True).stdout.strip().splitlines()
